@@ -86,7 +86,7 @@ func faultsFor(fc *FieldCase) []dataFault {
 	}
 	obj := map[string]interface{}{"zq": uint64(1)}
 	switch fc.F.Kind {
-	case KInt, KPInt, KVInt, KUInt, KF64, KUFloat, KBool, KUBool:
+	case KInt, KPInt, KVInt, KUInt, KF64, KUFloat, KBool, KUBool, KPI:
 		add("unparsable string for a number / boolean", p, "zz", p)
 		add("object where a primitive is expected", p, obj, p)
 	case KInt8:
@@ -105,7 +105,7 @@ func faultsFor(fc *FieldCase) []dataFault {
 		add("object where a primitive is expected", p, obj, p)
 	case KUCfg, KCfg, KStruct, KPStruct, KInner, KPInner, KDInt:
 		add("primitive where an object is expected", p, uint64(5), p)
-	case KSInt, KSVInt:
+	case KSInt, KSVInt, KPSInt:
 		add("wrong type inside a list", p+".0", "zz", p+".0")
 	case KSStr:
 		add("wrong type inside a list", p+".0", obj, p+".0")
@@ -113,7 +113,7 @@ func faultsFor(fc *FieldCase) []dataFault {
 		add("wrong length for a fixed-size array", p, []interface{}{uint64(1)}, p)
 		add("wrong length for a fixed-size array", p, []interface{}{uint64(1), uint64(2), uint64(3)}, p)
 		add("wrong type inside a list", p+".1", "zz", p+".1")
-	case KMInt:
+	case KMInt, KMVInt:
 		add("wrong type inside a map", p+".p", "zz", p+".p")
 	case KMSlice:
 		add("wrong type inside a map", p+".p.0", "zz", p+".p.0")
